@@ -13,9 +13,8 @@ variable {α : Type} [DecidableEq α]
 
 /-- order: first list, then the second-only items in their original relative order -/
 theorem C15_names (xs ys : List (Nec × α)) (hys : (names ys).Nodup) :
-    names (mergeNec xs ys) = names xs ++ (names ys).filter (fun a => a ∉ names xs) := by
-  unfold mergeNec
-  rw [names_foldl_second _ _ hys, names_mergeFirst]
+    names (mergeNec xs ys) = names xs ++ (names ys).filter (fun a => a ∉ names xs) :=
+  mergeNec_names xs ys hys
 
 /-- each distinct item of either list, exactly once -/
 theorem C15_exactly_once (xs ys : List (Nec × α)) (hxs : (names xs).Nodup) (hys : (names ys).Nodup) :
